@@ -16,6 +16,7 @@ header flag combinations; boundary alphabets for addresses, texts and identifier
 from mc import env  # noqa: F401
 from mc import par
 from mc.report import Report, Acc, exc_sig
+from mc.hist import scramble
 
 import itertools
 
@@ -134,6 +135,12 @@ def check_tms(acc, c, sample=False):
         outcome = "length"
     # (2) parse back
     try:
+        # history probe: a first parse whose result the caller then rewrites in place must not influence the next parse of the
+        # same bytes (parse results cached / shared by the library)
+        try:
+            scramble(TextMessagingService.from_bytes(b))
+        except Exception:  # noqa: BLE001
+            pass
         calls += 1
         p = TextMessagingService.from_bytes(b)
     except Exception as e:
@@ -295,6 +302,12 @@ def check_ars(acc, c, sample=False):
         acc.violation("ars_length_prefix_wrong", cc, f"leading length {int.from_bytes(b[:2], 'big')} != {len(b) - 2} octets that follow")
         outcome = "length"
     try:
+        # history probe: a first parse whose result the caller then rewrites in place must not influence the next parse of the
+        # same bytes (parse results cached / shared by the library)
+        try:
+            scramble(AutomaticRegistrationService.from_bytes(b))
+        except Exception:  # noqa: BLE001
+            pass
         calls += 1
         p = AutomaticRegistrationService.from_bytes(b)
     except Exception as e:
